@@ -318,10 +318,49 @@ def sigma(n, f, lo=0):
     return sum(f(k) for k in range(lo, int(n)))
 
 
+def sum_value(s):
+    return s
+
+
+class TF(float):
+    """a float read out of an array by a contract clause: `==` / `!=` on it mean equality up to rounding (ctx.tol, the same
+    tolerance as approx), because clauses are written as exact real-arithmetic statements (A1) and replayed on binary floats;
+    ordering comparisons stay exact.  Arithmetic keeps the wrapper."""
+    __slots__ = ()
+
+    def __eq__(self, o):
+        if isinstance(o, (int, float, np.integer, np.floating)) and not isinstance(o, bool):
+            return approx(float(self), float(o))
+        return float.__eq__(self, o)
+
+    def __ne__(self, o):
+        r = self.__eq__(o)
+        return r if r is NotImplemented else not r
+    __hash__ = float.__hash__
+
+
+def _tf_op(name):
+    base = getattr(float, name)
+
+    def op(self, *a):
+        r = base(self, *[float(x) if isinstance(x, (TF, np.floating)) else x for x in a])
+        return TF(r) if isinstance(r, float) else r
+    op.__name__ = name
+    return op
+
+
+for _n in ('__add__', '__radd__', '__sub__', '__rsub__', '__mul__', '__rmul__', '__truediv__', '__rtruediv__', '__neg__', '__pos__',
+           '__abs__', '__pow__', '__rpow__'):
+    setattr(TF, _n, _tf_op(_n))
+
+
 def elem(a, *i):
     if not i and not isinstance(a, np.ndarray):
         return a
-    return a[tuple(int(j) for j in i)]
+    v = a[tuple(int(j) for j in i)]
+    if isinstance(v, (np.floating, float)) and not isinstance(v, TF):
+        return TF(v)
+    return v
 
 
 def abs2(z):
